@@ -291,7 +291,7 @@ def run_units(sel, tier, prop, keep=False, jobs=None):
     sel = sel_eff
     known = load_known()
     jobs = jobs or int(os.environ.get("VERIF_JOBS", "10"))
-    timeout_s = int(os.environ.get("VERIF_UNIT_TIMEOUT", "240" if tier == "quick" else "1800"))
+    timeout_s = int(os.environ.get("VERIF_UNIT_TIMEOUT", "900" if tier == "quick" else "1800"))
     kani_units = [u for u in sel if u.get("backend", "kani") == "kani"]
     verus_units = [u for u in sel if u.get("backend") == "verus"]
     results = {}   # unit id -> dict
